@@ -31,6 +31,7 @@ import (
 	"github.com/dpb587/rdfkit-go/encoding/htmlrdfa"
 	"github.com/dpb587/rdfkit-go/encoding/jsonld"
 	"github.com/dpb587/rdfkit-go/rdf"
+	xhtml "golang.org/x/net/html"
 )
 
 var (
@@ -61,12 +62,21 @@ func catch(d *decoded) {
 	}
 }
 
-func parseDoc(text, base string, capture bool) (*enchtml.Document, error) {
+// document construction paths: 0 ParseDocument, 1 ParseDocument with text offsets (inspecthtml parser),
+// 2 x/net/html parse + NewDocument (a DOM the caller already has)
+func parseDoc(text, base string, mode int) (*enchtml.Document, error) {
+	if mode == 2 {
+		root, err := xhtml.Parse(strings.NewReader(text))
+		if err != nil {
+			return nil, err
+		}
+		return enchtml.NewDocument(root, base)
+	}
 	opts := enchtml.DocumentConfig{}
 	if base != "" {
 		opts = opts.SetLocation(base)
 	}
-	if capture {
+	if mode == 1 {
 		opts = opts.SetCaptureTextOffsets(true)
 	}
 	return enchtml.ParseDocument(strings.NewReader(text), opts)
@@ -81,9 +91,9 @@ func drainTriples(d encoding.TriplesDecoder, res *decoded) {
 	}
 }
 
-func decodeRdfa(text, base string, capture bool) (res decoded) {
+func decodeRdfa(text, base string, mode int) (res decoded) {
 	defer catch(&res)
-	doc, err := parseDoc(text, base, capture)
+	doc, err := parseDoc(text, base, mode)
 	if err != nil {
 		res.err = "parse: " + err.Error()
 		return
@@ -97,9 +107,9 @@ func decodeRdfa(text, base string, capture bool) (res decoded) {
 	return
 }
 
-func decodeMd(text, base string, capture bool) (res decoded) {
+func decodeMd(text, base string, mode int) (res decoded) {
 	defer catch(&res)
-	doc, err := parseDoc(text, base, capture)
+	doc, err := parseDoc(text, base, mode)
 	if err != nil {
 		res.err = "parse: " + err.Error()
 		return
@@ -114,9 +124,9 @@ func decodeMd(text, base string, capture bool) (res decoded) {
 	return
 }
 
-func decodeJsonld(text, base string, capture bool) (res decoded) {
+func decodeJsonld(text, base string, mode int) (res decoded) {
 	defer catch(&res)
-	doc, err := parseDoc(text, base, capture)
+	doc, err := parseDoc(text, base, mode)
 	if err != nil {
 		res.err = "parse: " + err.Error()
 		return
@@ -270,6 +280,24 @@ type harness struct {
 
 func (h *harness) want(f string) bool { return len(h.fam) == 0 || h.fam[f] }
 
+func (h *harness) mode() int {
+	switch x := h.r.Intn(100); {
+	case x < 60:
+		return 0
+	case x < 85:
+		return 1
+	}
+	return 2
+}
+
+// modePreds: the known-finding class of the NewDocument path
+func modePreds(mode int, base string) []string {
+	if mode == 2 && base != "" {
+		return []string{"html-newdocument-location-not-base"}
+	}
+	return nil
+}
+
 func (h *harness) layout() *layout { return &layout{r: h.r, plain: h.r.Chance(10)} }
 
 // fail records a failing case, or a known one when a listed finding's predicate recognises it.
@@ -278,7 +306,10 @@ func (h *harness) fail(kind, family, base, html, detail, goR, model string, pred
 	for _, p := range preds {
 		if f, ok := h.known[p]; ok {
 			h.rep.Count("known:" + f.Key)
-			h.rep.Add(vh.Case{Kind: "known", Key: f.Key, Op: op, Detail: f.Key + " " + f.What + " — " + detail, Go: goR, Model: model})
+			// the report keeps a bounded number of cases: a few per finding, so that failures are never crowded out
+			if h.rep.Hist["known:"+f.Key] <= 5 {
+				h.rep.Add(vh.Case{Kind: "known", Key: f.Key, Op: op, Detail: f.Key + " " + f.What + " — " + detail, Go: goR, Model: model})
+			}
 			return
 		}
 	}
@@ -378,9 +409,9 @@ func (h *harness) maybeShrink(before int, family, base string, doc *Node) {
 	var res decoded
 	op := "html.rdfa"
 	if family == "md-soup" {
-		res, op = decodeMd(text, base, false), "html.md"
+		res, op = decodeMd(text, base, 0), "html.md"
 	} else {
-		res = decodeRdfa(text, base, false)
+		res = decodeRdfa(text, base, 0)
 	}
 	ans, _ := h.drv.Run([]string{op + " " + vh.XS(base) + " " + small.Wire()})
 	model := ""
@@ -468,8 +499,9 @@ func (h *harness) rdfaWriter(n int) {
 		if text == "" {
 			continue
 		}
-		res := decodeRdfa(text, c.base, h.r.Chance(25))
-		h.compare("rdfa-writer", c.base, text, res, c.g, true, mo.g, true, rdfaPreds(mo.doc, c.base))
+		mode := h.mode()
+		res := decodeRdfa(text, c.base, mode)
+		h.compare("rdfa-writer", c.base, text, res, c.g, true, mo.g, true, append(rdfaPreds(mo.doc, c.base), modePreds(mode, c.base)...))
 	}
 }
 
@@ -501,7 +533,8 @@ func (h *harness) rdfaSoup(n int) {
 		if text == "" {
 			continue
 		}
-		res := decodeRdfa(text, c.base, h.r.Chance(25))
+		mode := h.mode()
+		res := decodeRdfa(text, c.base, mode)
 		h.rep.Eval(c.line, len(res.quads) >= 1)
 		h.rep.Count(fmt.Sprintf("rdfa-soup:triples=%d", min(len(res.quads), 8)))
 		var model []Triple
@@ -515,7 +548,7 @@ func (h *harness) rdfaSoup(n int) {
 			}
 		}
 		before := h.rep.Failures()
-		h.compare("rdfa-soup", c.base, text, res, nil, false, model, have, rdfaPreds(c.doc, c.base))
+		h.compare("rdfa-soup", c.base, text, res, nil, false, model, have, append(rdfaPreds(c.doc, c.base), modePreds(mode, c.base)...))
 		h.maybeShrink(before, "rdfa-soup", c.base, c.doc)
 	}
 }
@@ -563,8 +596,9 @@ func (h *harness) mdWriter(n int) {
 		if text == "" {
 			continue
 		}
-		res := decodeMd(text, c.base, h.r.Chance(25))
-		h.compare("md-writer", c.base, text, res, c.g, true, mo.g, true, mdPreds(mo.doc))
+		mode := h.mode()
+		res := decodeMd(text, c.base, mode)
+		h.compare("md-writer", c.base, text, res, c.g, true, mo.g, true, append(mdPreds(mo.doc), modePreds(mode, c.base)...))
 	}
 }
 
@@ -596,7 +630,8 @@ func (h *harness) mdSoup(n int) {
 		if text == "" {
 			continue
 		}
-		res := decodeMd(text, c.base, h.r.Chance(25))
+		mode := h.mode()
+		res := decodeMd(text, c.base, mode)
 		h.rep.Eval(c.line, len(res.quads) >= 1)
 		h.rep.Count(fmt.Sprintf("md-soup:triples=%d", min(len(res.quads), 8)))
 		var model []Triple
@@ -613,7 +648,7 @@ func (h *harness) mdSoup(n int) {
 			}
 		}
 		before := h.rep.Failures()
-		h.compare("md-soup", c.base, text, res, nil, false, model, have, mdPreds(c.doc))
+		h.compare("md-soup", c.base, text, res, nil, false, model, have, append(mdPreds(c.doc), modePreds(mode, c.base)...))
 		h.maybeShrink(before, "md-soup", c.base, c.doc)
 	}
 }
@@ -756,8 +791,9 @@ func (h *harness) jsonldFamily(n int) {
 		if text == "" {
 			continue
 		}
-		res := decodeJsonld(text, c.base, h.r.Chance(25))
-		h.compare("jsonld", c.base, text, res, c.g, true, nil, false, nil)
+		mode := h.mode()
+		res := decodeJsonld(text, c.base, mode)
+		h.compare("jsonld", c.base, text, res, c.g, true, nil, false, modePreds(mode, c.base))
 		if *nomodel || res.panic != "" || res.err != "" {
 			continue
 		}
@@ -785,7 +821,7 @@ func (h *harness) jsonldFamily(n int) {
 			}
 		}
 		if bad != "" || !vh.Isomorphic(res.quads, viaModel) {
-			h.fail("disagreement", "jsonld", c.base, text, "htmljsonld differs from decoding the scripts selected by the model "+bad, showQuads(res.quads), showQuads(viaModel), nil)
+			h.fail("disagreement", "jsonld", c.base, text, "htmljsonld differs from decoding the scripts selected by the model "+bad, showQuads(res.quads), showQuads(viaModel), modePreds(mode, c.base))
 		}
 	}
 }
@@ -876,10 +912,14 @@ func (h *harness) combined(n int) {
 			continue
 		}
 		capture := h.r.Chance(25)
+		cm := 0
+		if capture {
+			cm = 1
+		}
 		all := decodeAll(text, c.base, capture)
-		j := decodeJsonld(text, c.base, capture)
-		m := decodeMd(text, c.base, capture)
-		r := decodeRdfa(text, c.base, capture)
+		j := decodeJsonld(text, c.base, cm)
+		m := decodeMd(text, c.base, cm)
+		r := decodeRdfa(text, c.base, cm)
 		if all.panic != "" || j.panic != "" || m.panic != "" || r.panic != "" {
 			h.fail("violation", "combined", c.base, text, "decoder panicked: "+all.panic+j.panic+m.panic+r.panic, "", "", nil)
 			continue
